@@ -1,6 +1,7 @@
 // C01 numeric harness: real library (float/double) vs the documented-matrix oracle in long double.
 // Serves as (i) the accuracy clause of C01 and (ii) the failing-input search when a C01 proof breaks.
 #include "docmat.hpp"
+#include <array>
 using namespace hv;
 
 template<typename G>
@@ -16,8 +17,9 @@ void run(Report & rep, Rng & rng, int n, double tol)
     ++rep.strata[l1];
     ++rep.strata[l2];
     MatX M1 = D::mat(to_ld(g1.coeffs())), M2 = D::mat(to_ld(g2.coeffs())), M3 = D::mat(to_ld(g3.coeffs()));
-    auto check = [&](const char * what, const MatX & got, const MatX & want) {
-      ld scale = std::max<ld>(1, maxabs(want));
+    // err relative to the larger of 1, the expected entries and (for products) the operand entries
+    auto check = [&](const char * what, const MatX & got, const MatX & want, ld opscale = 0) {
+      ld scale = std::max<ld>(std::max<ld>(1, maxabs(want)), opscale);
       double e = static_cast<double>(maxabs(got - want) / scale);
       rep.tally(gname + "." + what, e);
       if (!(e <= tol)) {
@@ -50,6 +52,33 @@ void run(Report & rep, Rng & rng, int n, double tol)
            << ",\"g1\":" << jvec(g1.coeffs()) << "}";
         rep.fail(os.str());
       }
+    }
+    // in-place and aliased forms of the same operations (operator*=, self-assignment through values and Maps)
+    {
+      G a = g1;
+      a *= g2;
+      check("comp_inplace", D::mat(to_ld(a.coeffs())), M1 * M2, std::max(maxabs(M1), maxabs(M2)));
+      G b = g1;
+      b *= b;
+      check("comp_inplace_alias", D::mat(to_ld(b.coeffs())), M1 * M1, maxabs(M1));
+      G c2 = g1;
+      c2 = c2 * c2;
+      check("comp_assign_alias", D::mat(to_ld(c2.coeffs())), M1 * M1, maxabs(M1));
+      G d = g1;
+      d = d.inverse();
+      check("inv_assign_alias", D::mat(to_ld(d.coeffs())), D::mat(to_ld(gi.coeffs())));
+      std::array<S, G::RepSize> buf;
+      for (int i = 0; i < G::RepSize; ++i) buf[i] = g1.coeffs()(i);
+      smooth::Map<G> m(buf.data());
+      smooth::Map<const G> mc(buf.data());
+      m *= mc;
+      check("comp_map_alias", D::mat(to_ld(m.coeffs())), M1 * M1, maxabs(M1));
+      for (int i = 0; i < G::RepSize; ++i) buf[i] = g1.coeffs()(i);
+      m = m * g2;
+      check("comp_map_assign", D::mat(to_ld(m.coeffs())), M1 * M2, std::max(maxabs(M1), maxabs(M2)));
+      for (int i = 0; i < G::RepSize; ++i) buf[i] = g1.coeffs()(i);
+      m = m.inverse();
+      check("inv_map_alias", D::mat(to_ld(m.coeffs())), D::mat(to_ld(gi.coeffs())));
     }
     // identity
     if (c == 0) check("identity", D::mat(to_ld(G::Identity().coeffs())), I);
